@@ -147,8 +147,8 @@ def gen_obj_history(rng, max_ops=9):
                         "y": rng.randrange(-H, H + 2) if H else rng.randrange(2), "clone": rng.random() < 0.5})
         r = rng.random()
         if r < 0.05:
-            # not in the Lean alphabet (what it removes depends on the run-length encoding): the model is re-initialised from the
-            # XML it leaves, with the wrapper cache the code must leave: empty
+            # not in the alphabet of the history theorems (what it removes depends on the run-length encoding), but
+            # Transform.tblOptimize predicts the XML it leaves; the wrapper cache the code must leave: empty
             op = {"op": "optimize_width"}
         elif r < 0.10:
             op = {"op": "rstrip", "aggr": rng.random() < 0.5}
@@ -270,7 +270,7 @@ def run_obj_histories(chk: core.Check, n_hist: int):
                     else:
                         chk.disagree({**case, "cache_left": dump}, "optimize_width left cached row wrappers behind (the code empties the cache; no stale read found)")
                     break
-                lines.append(f"otb init {cs} {rs}")
+                lines.append("otb xop optimize")
                 expects.append((cs, rs, dump, None, case))
                 continue
             lines.append(obj_line(op))
